@@ -135,6 +135,10 @@ func BatchedWriter.StopBatchWriter
   requires bw != nil && unlocked(bw.startStopMutex)
   modifies everything
   ghost before call WaitGroup.Wait: assert held(bw.startStopMutex) && !aload(bw.running)
+  -- Stop only waits for the writer (which wakes up by its time-out): it neither sends on nor receives from a channel of
+  -- the writer - a blocking send would hang, holding the start/stop mutex, whenever nobody is left to receive
+  ghost before send: assert false
+  ghost before recv: assert false
   ensures unlocked(bw.startStopMutex) && !aload(bw.running)
   ensures old(aload(bw.running)) ==> sel(sync.wgwaited, addr(bw.writeWg))
 
@@ -172,6 +176,9 @@ func BatchedWriter.runBatchWriter
   requires sel(sync.wgcount, addr(bw.writeWg)) >= 1         -- the starter has counted this goroutine (Add before go)
   requires pending == 0 && !storefailed
   modifies everything
+  -- the writer never waits on a plain channel receive: every wait is a select of the collector (with its time-out) and the
+  -- flush drain takes what is there and goes on (a producer that counted itself and then gave up never sends)
+  ghost before recv: assert false
   ghost after call KVStore.Batched: storefailed = storefailed || r1 != nil
   ghost after call BatchCollector.Commit: storefailed = storefailed || result != nil
   ghost before call BatchCollector.Add: assume objectToPersist != nil     -- only Enqueue sends, and it has called a method on the object
